@@ -79,6 +79,8 @@ func (e *Expr) Tokens(full bool) []string {
 	switch e.K {
 	case "str":
 		return []string{Quote(e.S)}
+	case "numraw":
+		return []string{e.S}
 	case "num":
 		if e.N < 0 {
 			// there is no unary minus: negative numbers are written 0 - n
@@ -253,6 +255,10 @@ func Eval(e *Expr, env map[string]Value) Value {
 	switch e.K {
 	case "str":
 		return VS(e.S)
+	case "numraw":
+		// a number literal too large for an integer: its type is number; the value the
+		// engine gives it (0) is documented nowhere and no check depends on it
+		return VN(0)
 	case "num":
 		return VN(e.N)
 	case "bool":
@@ -445,7 +451,7 @@ func TypeOf(e *Expr, env TypeEnv) (t PType, open bool) {
 	switch e.K {
 	case "str":
 		return TString, false
-	case "num":
+	case "num", "numraw":
 		return TNumber, false
 	case "bool":
 		return TBool, false
